@@ -163,6 +163,17 @@ Theorem C09_the_group_a_member_creates_satisfies_the_invariant : forall id lk,
   GInv {| g_tree := [Some (Leaf id)]; g_keys := (fun i => if i =? 0 then Some lk else None); g_members := [(0, [Some lk])] |}.
 Proof. exact ginv_initial. Qed.
 
+(* commits without an update path (add-only, PSK-only, ...): members keep what provisional_private_tree
+   leaves them, a member added by the commit holds its leaf key and is an unmerged leaf at every non-blank
+   ancestor; histories that mix both kinds of commit.  An external commit is a commit with a path whose
+   committer is the leaf it adds (the committer's case of gstep asks nothing of its earlier state). *)
+Theorem C09_a_commit_without_path_preserves_the_group_invariant : forall g g', GInv g -> gstep_nopath g g' -> GInv g'.
+Proof. exact ginv_step_nopath. Qed.
+
+Theorem C09_every_state_reachable_by_commits_of_both_kinds_satisfies_the_invariant :
+  forall g0 g, GInv g0 -> reachable2 g0 g -> GInv g.
+Proof. exact ginv_reachable2. Qed.
+
 Print Assumptions C09_proposals_keep_privok.
 Print Assumptions C09_receiver_keeps_privok.
 Print Assumptions C09_committer_privok.
@@ -183,3 +194,5 @@ Print Assumptions C09_translated_encap_writes_are_the_model.
 Print Assumptions C09_one_commit_preserves_the_group_invariant.
 Print Assumptions C09_every_reachable_group_state_satisfies_the_invariant.
 Print Assumptions C09_the_group_a_member_creates_satisfies_the_invariant.
+Print Assumptions C09_a_commit_without_path_preserves_the_group_invariant.
+Print Assumptions C09_every_state_reachable_by_commits_of_both_kinds_satisfies_the_invariant.
